@@ -370,7 +370,7 @@ namespace nmtools::meta
 
                 if constexpr ((len_a > 0) && (len_b > 0)) {
                     using type [[maybe_unused]] = nmtools_array<index_t,(len_a > len_b ? len_a : len_b)>;
-                    if constexpr (!is_fail_v<decltype(c_value_a)> && (len_a >= len_b)) {
+                    if constexpr (is_constant_index_array_v<ashape_t> && (len_a >= len_b)) {
                         return meta::template_reduce<len_a>([&](auto init, auto index){
                             using init_type = type_t<decltype(init)>;
                             constexpr auto I = at(c_value_a,index);
@@ -382,7 +382,7 @@ namespace nmtools::meta
                                 return as_value_v<type>;
                             }
                         }, as_value_v<nmtools_tuple<>>);
-                    } else if constexpr (!is_fail_v<decltype(c_value_b)> && (len_b >= len_a)) {
+                    } else if constexpr (is_constant_index_array_v<bshape_t> && (len_b >= len_a)) {
                         return meta::template_reduce<len_b>([&](auto init, auto index){
                             using init_type = type_t<decltype(init)>;
                             constexpr auto I = at(c_value_b,index);
@@ -400,7 +400,7 @@ namespace nmtools::meta
                 } else if constexpr ((len_a > 0) && !is_fail_v<decltype(b_size_b)>) {
                     constexpr auto dim = (len_a > b_size_b ? len_a : b_size_b);
                     using type [[maybe_unused]] = array::static_vector<index_t,dim>;
-                    if constexpr (!is_fail_v<decltype(c_value_a)> && (len_a >= b_size_b)) {
+                    if constexpr (is_constant_index_array_v<ashape_t> && (len_a >= b_size_b)) {
                         // NOTE: the following tries to deduce as bounded-shape to be able to compute at compile-time
                         // but the runtime part index::broadcast_shape is still not support it yet
                         // because of unhandled mixed constant index vs runtime index when computing result
@@ -443,7 +443,7 @@ namespace nmtools::meta
                     }
                 } else if constexpr ((len_b > 0) && !is_fail_v<decltype(b_size_a)>) {
                     using type [[maybe_unused]] = array::static_vector<index_t,(len_b > b_size_a ? len_b : b_size_a)>;
-                    if constexpr (!is_fail_v<decltype(c_value_b)> && (len_b >= b_size_a)) {
+                    if constexpr (is_constant_index_array_v<bshape_t> && (len_b >= b_size_a)) {
                         // NOTE: the following tries to deduce as bounded-shape to be able to compute at compile-time
                         // but the runtime part index::broadcast_shape is still not support it yet
                         // because of unhandled mixed constant index vs runtime index when computing result
